@@ -63,8 +63,10 @@ func (s *Socket) SendRaw(raw []byte, meta MsgMeta) int {
 		meta.Raw = string(raw)
 	}
 	s.meta = append(s.meta, meta)
-	s.mu.Unlock()
+	// queue under the lock: the index in meta must be the position in the
+	// channel even when two goroutines (driver and an injected action) send
 	s.in <- inbound{raw: raw}
+	s.mu.Unlock()
 	return meta.K
 }
 
@@ -87,8 +89,8 @@ func (s *Socket) Fail(err error) int {
 	s.mu.Lock()
 	k := len(s.meta)
 	s.meta = append(s.meta, MsgMeta{K: k, Close: true})
-	s.mu.Unlock()
 	s.in <- inbound{err: err}
+	s.mu.Unlock()
 	return k
 }
 
